@@ -117,10 +117,12 @@ def gen_exhaustive():
     ids = [0, 1, 2, (0, 0), -1]
     prevsets = [[], [0], [1], [-1], [(0, 0)], [0, 0]]
     rules = [('assume', A), ('implies_intr', A), ('implies_elim', None), ('subst_type', TyInst()), ('sorry', None),
-             ('', None)]
+             ('', None),
+             # names that are neither the empty rule nor a registered rule: never a justification
+             (' ', None), ('no_such_rule', None)]
     templates = []
     for (rule, args), id_, prevs, th in itertools.product(rules, ids, prevsets, ths):
-        if rule in ('assume', '', 'sorry') and prevs:
+        if rule in ('assume', '', 'sorry', ' ', 'no_such_rule') and prevs:
             continue
         if rule == 'sorry' and th is None:
             continue
@@ -199,7 +201,7 @@ def mutate(p, rng):
         it.prevs = list(it.prevs)
         it.prevs[j] = ItemID(rng.choice([0, 1, 2, 3, 4, (0, 0), (0, 1), -1, -2]))
     elif k == 3:
-        it.rule = ''
+        it.rule = rng.choice(['', '', ' ', '\t', 'no_such_rule', 'Sorry'])
     elif k == 4:
         it.rule = 'sorry'
         it.args = None
